@@ -1027,3 +1027,301 @@ class ColnamesSetterDF(_DF):
         stale = [a for a, v in self_.attrs.items() if v is ph and a not in new]
         cx.prove("no stale attribute placeholder for a removed name", not stale)
         cx.prove("frame:no-write-into-column-buffers", not ghost(cx.ctx)["input_writes"])
+
+
+# =========================================================================================
+# C01: every data frame is a well-formed rectangular table
+# =========================================================================================
+for _c in (FilterMask, FilterOutMask, FilterCallableDF, FilterKVDF, FilterOutKVDF, SliceRows, SliceOffRows, HeadDF, TailDF,
+           DropNa1, SampleDF, UniqueDF1, UniqueDF2, SelectDF, UnselectDF, UpdateDF, ModifyVectorDF, ModifyColumnDF,
+           ModifyCallableDF, RenameDF, CbindDF, RbindDF):
+    _c.also = tuple(set(getattr(_c, "also", ())) | {"C01", "C06"})
+
+
+def wf_and_coherent(cx, frame, what="result"):
+    """Representation invariant on a frame with concrete column names: every column a one-dimensional
+    DataFrameColumn, all of one length; attribute placeholders exactly track identifier-named keys
+    (never stale, never shadowing a real attribute)."""
+    ctx, it = cx.ctx, cx.it
+    om = frame.base
+    cx.prove(f"{what}:dict-part-is-concrete", isinstance(om, OMap) and all(isinstance(s, Entry) and s.key_py is not None for s in om.segs))
+    names = [s.key_py for s in om.segs]
+    cx.prove(f"{what}:names-unique", len(set(names)) == len(names))
+    cols = [s.value for s in om.segs]
+    ok = all(isinstance(v, NDArr) and v.cls is not None and v.cls.name == "DataFrameColumn" and v.ndim == 1 for v in cols)
+    cx.prove(f"{what}:every-column-is-a-1-D-DataFrameColumn", ok)
+    if ok and cols:
+        cx.prove(f"{what}:all-columns-have-the-same-length", z3.And(*[zint(v.len) == zint(cols[0].len) for v in cols]))
+    ph = it.class_attr(frame.cls, "COLUMN_PLACEHOLDER")[1]
+    stale = [a for a, v in frame.attrs.items() if v is ph and a not in names]
+    cx.prove(f"{what}:no-stale-attribute-placeholder", not stale)
+    shadow = [a for a, v in frame.attrs.items() if v is ph and it.class_attr(frame.cls, a)[0]]
+    cx.prove(f"{what}:no-placeholder-over-a-method-or-property", not shadow)
+    # reachable identically by key and by attribute
+    for s in om.segs:
+        nm = s.key_py
+        if nm.isidentifier() and not it.class_attr(frame.cls, nm)[0] and nm not in ("_group_colnames", "metadata"):
+            try:
+                got = it.getattr(frame, nm)
+                cx.prove(f"{what}:attribute {nm} is the column {nm}", got is s.value)
+            except PyRaise:
+                cx.prove(f"{what}:attribute {nm} is the column {nm}", False)
+    return names, cols
+
+
+def unreachable(cx, frame, nm, what="removed"):
+    it = cx.it
+    cx.prove(f"{what}:{nm} is not a key", M.truth(it, frame.base.contains(it, nm)) is False)
+    try:
+        it.getattr(frame, nm)
+        cx.prove(f"{what}:{nm} is not an attribute", False)
+    except PyRaise as e:
+        cx.prove(f"{what}:{nm} is not an attribute", e.exc == "AttributeError")
+
+
+def any_value(cx, name, shape):
+    """column argument of the given shape: 'column' (DataFrameColumn), 'vector', both of symbolic length"""
+    n = cx.ctx.fresh(name + "_len", INT)
+    cx.assume(n >= 0)
+    v = other_vector(cx, name, n, column=(shape == "column"))
+    return v, n
+
+
+@register
+class ColumnBroadcast(_DF):
+    """DataFrameColumn(values, dtype, nrow): length nrow; a length-one value is broadcast, any other
+    mismatch is rejected with ValueError."""
+    qualname, prop = "DataFrameColumn.__new__", "C01"
+    callees = {}
+    cases = {"nrow == length": lambda cx, inp: inp["n"] == inp["nrow"],
+             "length 1 broadcast to nrow >= 1": lambda cx, inp: z3.And(inp["n"] == 1, inp["nrow"] >= 1, inp["nrow"] != 1),
+             "any other mismatch": lambda cx, inp: z3.And(inp["n"] != inp["nrow"], z3.Or(inp["n"] != 1, inp["nrow"] < 1))}
+
+    def setup(self, cx):
+        v, n = any_value(cx, "object", "vector")
+        nrow = cx.int("nrow")
+        DF, DFC = df_classes(cx.it)
+        return {"self": None, "args": [DFC, v, None, nrow], "v": v, "n": n, "nrow": nrow}
+
+    def ensures(self, cx, result):
+        v, n, nrow = cx.inputs["v"], cx.inputs["n"], cx.inputs["nrow"]
+        cx.prove("mismatch-is-rejected", cx.case != "any other mismatch")
+        ok = isinstance(result, NDArr) and result.cls is not None and result.cls.name == "DataFrameColumn"
+        cx.prove("result-is-a-DataFrameColumn", ok)
+        if not ok:
+            return
+        j = cx.ctx.fresh("j", INT)
+        cx.prove("length == nrow", zint(result.len) == nrow)
+        src = (lambda jj: v.sym["elem"](0)) if cx.case.startswith("length 1") else (lambda jj: v.sym["elem"](jj))
+        cx.prove("values (broadcast)", z3.Implies(in_range(j, nrow), M.to_v(cx.it, result.seq.at(j)) == src(j)))
+        cx.prove("one-dimensional", result.ndim == 1)
+        cx.prove("fresh:new-buffer", result.freshness())
+
+    def raises(self, cx, exc):
+        cx.prove("only-ValueError-and-only-on-a-real-mismatch", exc.exc == "ValueError" and cx.case == "any other mismatch")
+
+
+class _Init(_DF):
+    qualname, prop = "DataFrame.__init__", "C01"
+    callees = {}
+    shapes = ("column", "vector")
+    names = ("a", "b")
+
+    def setup(self, cx):
+        DF, DFC = df_classes(cx.it)
+        vals, lens = [], []
+        for nm, sh in zip(self.names, self.shapes):
+            v, n = any_value(cx, nm, sh)
+            vals.append(v)
+            lens.append(n)
+        obj = Instance(cx.ctx, DF)
+        from pyvc.models_dict import _d_alloc
+        _d_alloc(cx.it, [obj], {})
+        return {"self": obj, "kwargs": dict(zip(self.names, vals)), "vals": vals, "lens": lens}
+
+
+def _mk_init(names_, shapes_):
+    class I(_Init):
+        names, shapes = names_, shapes_
+        variant = f"{len(names_)} columns: " + ",".join(shapes_)
+        cases = ({"equal lengths": lambda cx, inp: z3.And(*[l == inp["lens"][0] for l in inp["lens"]]) if inp["lens"] else z3.BoolVal(True)}
+                 if len(names_) < 2 else
+                 {"equal lengths": lambda cx, inp: z3.And(*[l == inp["lens"][0] for l in inp["lens"]]),
+                  "one value of length 1, frame longer": lambda cx, inp: z3.And(inp["lens"][0] == 1, *[l > 1 for l in inp["lens"][1:]],
+                                                                             *[l == inp["lens"][-1] for l in inp["lens"][1:]]),
+                  "lengths differ, none is 1": lambda cx, inp: z3.And(inp["lens"][0] != inp["lens"][-1], *[l != 1 for l in inp["lens"]])})
+
+        def ensures(self, cx, result):
+            me = cx.inputs["self"]
+            lens, vals = cx.inputs["lens"], cx.inputs["vals"]
+            cx.prove("mismatch-is-rejected", cx.case != "lengths differ, none is 1")
+            names, cols = wf_and_coherent(cx, me, "new frame")
+            cx.prove("columns-in-argument-order", names == list(self.names))
+            if names != list(self.names):
+                return
+            nrow = lens[-1] if len(lens) > 1 else (lens[0] if lens else z3.IntVal(0))
+            j = cx.ctx.fresh("j", INT)
+            for i, (c, v) in enumerate(zip(cols, vals)):
+                cx.prove(f"column {names[i]}: length == nrow", zint(c.len) == nrow)
+                bro = cx.case.startswith("one value") and i == 0
+                src = (lambda jj, v=v: v.sym["elem"](0)) if bro else (lambda jj, v=v: v.sym["elem"](jj))
+                cx.prove(f"column {names[i]}: values (broadcast if length 1)", z3.Implies(in_range(j, nrow), M.to_v(cx.it, c.seq.at(j)) == src(j)))
+            cx.prove("not-grouped", me.attrs.get("_group_colnames") == ())
+
+        def raises(self, cx, exc):
+            cx.prove("only-ValueError-and-only-on-a-real-mismatch", exc.exc == "ValueError" and cx.case == "lengths differ, none is 1")
+    I.__name__ = "Init_" + "_".join(shapes_)
+    return register(I)
+
+
+Init0 = _mk_init((), ())
+Init1c = _mk_init(("a",), ("column",))
+Init1v = _mk_init(("a",), ("vector",))
+Init2cv = _mk_init(("a", "b"), ("column", "vector"))
+Init2vc = _mk_init(("a", "items"), ("vector", "column"))
+Init3 = _mk_init(("a", "b", "c"), ("vector", "column", "vector"))
+
+
+class _Proto(_DF):
+    prop = "C01"
+    callees = {}
+    base_names = ("a", "items", "my col")     # plain identifier / clashes with a dict method / not an identifier
+
+    def frame(self, cx):
+        f = conc_frame(cx, "self", list(self.base_names))
+        # placeholders as the constructor leaves them: only for identifier names that do not clash
+        ph = cx.it.class_attr(f.cls, "COLUMN_PLACEHOLDER")[1]
+        for nm in list(f.attrs):
+            if f.attrs[nm] is ph and (cx.it.class_attr(f.cls, nm)[0] or nm in dir(dict)):
+                del f.attrs[nm]
+        return f
+
+
+def _mk_setitem(key, via_attr):
+    class S(_Proto):
+        qualname = "DataFrame.__setattr__" if via_attr else "DataFrame.__setitem__"
+        variant = f"{'attribute' if via_attr else 'key'} {key!r}"
+        cases = {"length == nrow": lambda cx, inp: inp["n"] == inp["self"].conc["nrow"],
+                 "length 1 (broadcast)": lambda cx, inp: z3.And(inp["n"] == 1, inp["self"].conc["nrow"] > 1),
+                 "other length (rejected)": lambda cx, inp: z3.And(inp["n"] != inp["self"].conc["nrow"],
+                                                                  z3.Or(inp["n"] != 1, inp["self"].conc["nrow"] < 1))}
+
+        def setup(self, cx):
+            f = self.frame(cx)
+            v, n = any_value(cx, "value", "vector")
+            return {"self": f, "args": [key, v], "v": v, "n": n}
+
+        def ensures(self, cx, result):
+            f = cx.inputs["self"]
+            v, n = cx.inputs["v"], cx.inputs["n"]
+            cx.prove("mismatch-is-rejected", cx.case != "other length (rejected)")
+            names, cols = wf_and_coherent(cx, f, "frame")
+            exp = list(self.base_names) + ([key] if key not in self.base_names else [])
+            cx.prove("names: existing key keeps its place, new key is appended", names == exp)
+            if names != exp:
+                return
+            j = cx.ctx.fresh("j", INT)
+            nrow = f.conc["nrow"]
+            i = names.index(key)
+            src = (lambda jj: v.sym["elem"](0)) if cx.case.startswith("length 1") else (lambda jj: v.sym["elem"](jj))
+            cx.prove("assigned column: values (broadcast if length 1)",
+                     z3.And(zint(cols[i].len) == nrow, z3.Implies(in_range(j, nrow), M.to_v(cx.it, cols[i].seq.at(j)) == src(j))))
+            for t, nm in enumerate(self.base_names):
+                if nm != key:
+                    cx.prove(f"other column {nm!r} untouched", cols[names.index(nm)] is f.conc["cols"][t])
+
+        def raises(self, cx, exc):
+            cx.prove("only-ValueError-and-only-on-a-real-mismatch", exc.exc == "ValueError" and cx.case == "other length (rejected)")
+            wf_and_coherent(cx, cx.inputs["self"], "frame after the rejected assignment")
+    S.__name__ = f"Set_{'attr' if via_attr else 'item'}_{key.replace(' ', '_')}"
+    return register(S)
+
+
+for _k in ("a", "b", "items", "keys2", "other col"):
+    _mk_setitem(_k, False)
+for _k in ("a", "b"):
+    _mk_setitem(_k, True)
+
+
+def _mk_remove(how, key):
+    class R(_Proto):
+        qualname = {"delitem": "DataFrame.__delitem__", "delattr": "DataFrame.__delattr__", "pop": "DataFrame.pop"}[how]
+        variant = f"{key!r}"
+
+        def setup(self, cx):
+            return {"self": self.frame(cx), "args": [key]}
+
+        def ensures(self, cx, result):
+            f = cx.inputs["self"]
+            names, cols = wf_and_coherent(cx, f, "frame")
+            exp = [n for n in self.base_names if n != key]
+            cx.prove("exactly that column is removed, the others keep their order", names == exp)
+            if names == exp:
+                for nm in exp:
+                    cx.prove(f"other column {nm!r} untouched", cols[names.index(nm)] is f.conc["cols"][self.base_names.index(nm)])
+            if how == "pop":
+                cx.prove("returns the removed column", result is f.conc["cols"][self.base_names.index(key)])
+            if key.isidentifier() and not cx.it.class_attr(f.cls, key)[0] and key not in dir(dict):
+                unreachable(cx, f, key)
+            else:
+                cx.prove(f"removed:{key} is not a key", M.truth(cx.it, f.base.contains(cx.it, key)) is False)
+    R.__name__ = f"Remove_{how}_{key.replace(' ', '_')}"
+    return register(R)
+
+
+for _how in ("delitem", "pop"):
+    for _k in ("a", "items", "my col"):
+        _mk_remove(_how, _k)
+_mk_remove("delattr", "a")
+
+
+@register
+class PopItem(_Proto):
+    qualname = "DataFrame.popitem"
+
+    def setup(self, cx):
+        return {"self": self.frame(cx), "args": []}
+
+    def ensures(self, cx, result):
+        f = cx.inputs["self"]
+        names, cols = wf_and_coherent(cx, f, "frame")
+        cx.prove("last column removed", names == list(self.base_names[:-1]))
+        cx.prove("returns (name, column) of the last column", isinstance(result, tuple) and result[0] == self.base_names[-1]
+                 and result[1] is f.conc["cols"][-1])
+
+
+@register
+class GetAttrMissing(_Proto):
+    """a name that is neither a column nor a real attribute is reachable by neither route"""
+    qualname, variant = "DataFrame.__getattr__", "missing name"
+
+    def setup(self, cx):
+        return {"self": self.frame(cx), "args": ["zzz"]}
+
+    def ensures(self, cx, result):
+        cx.prove("raises-AttributeError", False)
+
+    def raises(self, cx, exc):
+        cx.prove("raises-AttributeError", exc.exc == "AttributeError")
+
+
+@register
+class CheckDimensions(_DF):
+    """_check_dimensions raises exactly when the stored columns differ in length"""
+    qualname, prop = "DataFrame._check_dimensions", "C01"
+    callees = {}
+    cases = {"equal": lambda cx, inp: inp["n1"] == inp["n2"], "different": lambda cx, inp: inp["n1"] != inp["n2"]}
+
+    def setup(self, cx):
+        DF, DFC = df_classes(cx.it)
+        a, n1 = any_value(cx, "a", "column")
+        b, n2 = any_value(cx, "b", "column")
+        obj = Instance(cx.ctx, DF, base=OMap([Entry(M.to_v(cx.it, "a"), a, "a"), Entry(M.to_v(cx.it, "b"), b, "b")]))
+        obj.attrs["_group_colnames"] = ()
+        return {"self": obj, "args": [], "n1": n1, "n2": n2}
+
+    def ensures(self, cx, result):
+        cx.prove("accepts-only-equal-lengths", cx.case == "equal")
+
+    def raises(self, cx, exc):
+        cx.prove("rejects-only-different-lengths", exc.exc == "ValueError" and cx.case == "different")
